@@ -95,6 +95,14 @@ func worker() {
 		pprof.StartCPUProfile(f)
 		defer pprof.StopCPUProfile()
 	}
+	if sc := os.Getenv("VERIF_SCRATCH"); sc != "" && os.Getenv("VERIF_CRASHFILE") != "" {
+		// race parts: a fatal runtime error (the runtime's own concurrent-map-access detector) kills
+		// the process; leave its report and the current case where the orchestrator finds them
+		if f, err := os.Create(os.Getenv("VERIF_CRASHFILE")); err == nil {
+			debug.SetCrashOutput(f, debug.CrashOptions{})
+			core.CaseFile = os.Getenv("VERIF_CRASHFILE") + ".case"
+		}
+	}
 	t0 := time.Now()
 	// watchdog: an execution that has not returned for two minutes never will
 	go func() {
@@ -232,8 +240,9 @@ func orchestrate() int {
 					"VERIF_SCRATCH="+filepath.Join(scratch, fmt.Sprintf("w%d", i)),
 					"GORACE=log_path="+filepath.Join(scratch, fmt.Sprintf("race%d", i))+" halt_on_error=0 exitcode=0 atexit_sleep_ms=0",
 				)
+				crashFile := filepath.Join(scratch, fmt.Sprintf("crash%d", i))
 				if p.Race {
-					cmd.Env = append(cmd.Env, "GOMAXPROCS=2")
+					cmd.Env = append(cmd.Env, "GOMAXPROCS=2", "VERIF_CRASHFILE="+crashFile)
 				} else {
 					cmd.Env = append(cmd.Env, "GOMAXPROCS=1") // channel hand-offs stay on one P: no futex wake-ups
 				}
@@ -261,6 +270,26 @@ func orchestrate() int {
 				mu.Lock()
 				defer mu.Unlock()
 				if !ok || err != nil {
+					if crash, _ := os.ReadFile(crashFile); p.Race && bytes.HasPrefix(crash, []byte("fatal error: concurrent map")) {
+						// the Go runtime's concurrent-map-access detector fired in repository code running
+						// free (or between two scheduling points): a data race by the runtime's own verdict
+						cs, _ := os.ReadFile(crashFile + ".case")
+						head := string(crash)
+						if len(head) > 1500 {
+							head = head[:1500]
+						}
+						first := strings.SplitN(head, "\n", 2)[0]
+						v := core.Violation{Property: prop, Key: prop + "/fatal/" + core.Hash(first, string(cs)), Kind: "fatal-concurrent-map-access", Part: p.Name,
+							Detail: "the worker process was killed by the Go runtime: " + first + "; case: " + string(cs) + "\n" + head}
+						if json.Valid(cs) {
+							v.Case = cs
+						}
+						ps.Violations = append(ps.Violations, v)
+						ps.ViolationCount++
+						ps.Exhaustive = false
+						ps.Caps = append(ps.Caps, "a worker was killed by a fatal runtime error (reported as a violation); its remaining cases were not explored")
+						return
+					}
 					tail := errb.String()
 					if len(tail) > 3000 {
 						tail = tail[len(tail)-3000:]
@@ -280,9 +309,20 @@ func orchestrate() int {
 	}
 	wall := time.Since(t0).Seconds()
 
-	if total.EngineError != "" {
+	if total.EngineError != "" && len(total.Violations) == 0 {
 		fmt.Printf("ENGINE-ERROR property=%s %s\n", prop, total.EngineError)
 		return 2
+	}
+	if total.EngineError != "" {
+		// violations were observed on real executions before the engine gave up (typically: the
+		// code under test keeps state between executions, so a later replay of a prefix diverged):
+		// they stand; the exploration is reported as incomplete
+		total.Exhaustive = false
+		ee := total.EngineError
+		if len(ee) > 300 {
+			ee = ee[:300]
+		}
+		total.Caps = append(total.Caps, "engine error after violations had been recorded (exploration incomplete): "+strings.ReplaceAll(ee, "\n", " "))
 	}
 
 	// classify violations against the committed known-findings file (never written at run time)
